@@ -327,7 +327,7 @@ def _digest(ctx, model):
             continue
         kinds = child_kinds(n)
         for f, k in kinds.items():
-            if k != CHILD_MAP or n.legacy:
+            if k != CHILD_MAP or (n.legacy and n.name != "MultiVector"):
                 continue
             # how does the handler iterate the mapping?
             verdict = _mapping_iteration(model, n, mem, f)
@@ -406,6 +406,11 @@ def _stable_str(r):
         if a[0] in ("elem", "index") and isinstance(a[1], tuple) and (
                 a[1][0] == "field" or (a[1][0] == "attr" and a[1][1] == NODE)):
             return True, f"repr of an entry of field {a[1][-1]}"
+        if a[0] == "key" and isinstance(a[1], tuple) and (
+                a[1][0] == "field" or (a[1][0] == "attr" and a[1][1] == NODE)):
+            # keys of a mapping-valued field are names or numbers (keyword
+            # names, blade bit patterns)
+            return True, f"repr of a key of field {a[1][-1]}"
         return False, f"repr({_short(a)})"
     if r[0] == "call" and r[1] == "str":
         return _stable_str(("call", "repr", r[2], ()))
